@@ -130,32 +130,116 @@ std::vector<std::complex<double>> make_cmplx(Rng& r, int n, int cls, double A) {
     return x;
 }
 
+// Band statistics of one draw.  A 6-standard-error band is exceeded by sound code about twice per 1e9 tests (more often for
+// the kurtosis of short records), so an exceedance is not reported from one draw: see awgn_check.
+struct Bands
+{
+    struct Hit { std::string key, sig, msg; };     // key = statistic incl. component / lag, sig = failure class
+    std::vector<Hit> hits;                         // statistics outside their band in this draw (first per key)
+    std::vector<std::pair<std::string, double>> metrics;
+    std::string hard_sig, hard_msg;                // size / non-finite: not statistical, reported at once
+    void band(const std::string& key, const std::string& sig, const std::string& metric, ld ratio, const std::string& msg) {
+        metrics.emplace_back(metric, double(ratio));
+        if (!(ratio <= 1)) {
+            for (auto& h : hits) if (h.key == key) return;
+            hits.push_back({key, sig, msg});
+        }
+    }
+    bool has(const std::string& key) const {
+        for (auto& h : hits) if (h.key == key) return true;
+        return false;
+    }
+};
+
 // one real noise component against its expected per-component sigma; tag = "", "re", "im"
-void check_component(const std::vector<double>& z, ld sigma, const std::string& what, const std::string& tag, Out& o) {
+void check_component(const std::vector<double>& z, ld sigma, const std::string& what, const std::string& tag, Bands& b) {
     const ld n = ld(z.size());
     const Mom m = moments(z);
     const std::string at = what + (tag.empty() ? "" : " " + tag);
     // zero mean: the mean of n independent N(0, sigma^2) samples has standard deviation sigma/sqrt(n)
     const ld tol_mean = 6 * sigma / std::sqrt(n);
-    o.metric("awgn mean err/tol", double(std::fabs(m.mean) / tol_mean));
-    if (!(std::fabs(m.mean) <= tol_mean)) o.fail("awgn:mean", fmt("%s: noise mean %.6Lg, |mean| allowed 6 sigma/sqrt(n) = %.6Lg (sigma=%.6Lg)", at.c_str(), m.mean, tol_mean, sigma));
+    b.band("mean:" + tag, "awgn:mean", "awgn mean err/tol", std::fabs(m.mean) / tol_mean,
+           fmt("%s: noise mean %.6Lg, |mean| allowed 6 sigma/sqrt(n) = %.6Lg (sigma=%.6Lg)", at.c_str(), m.mean, tol_mean, sigma));
     // power of this component: relative standard error of the mean square of n Gaussian samples is sqrt(2/n)
     const ld relp = m.raw2 / (sigma * sigma) - 1, tol_p = 6 * std::sqrt(2 / n);
-    o.metric(tag.empty() ? "awgn real power err/tol" : "awgn component power err/tol", double(std::fabs(relp) / tol_p));
-    if (!(std::fabs(relp) <= tol_p))
-        o.fail(tag.empty() ? "awgn:real:power" : "awgn:cmplx:power-split",
-               fmt("%s: measured noise power %.9Lg, expected %.9Lg (%.4Lf dB off; relative error %.4Lg, allowed 6 sqrt(2/n) = %.4Lg)", at.c_str(), m.raw2, sigma * sigma,
-                   10 * std::log10(m.raw2 / (sigma * sigma)), relp, tol_p));
+    b.band("power:" + tag, tag.empty() ? "awgn:real:power" : "awgn:cmplx:power-split", tag.empty() ? "awgn real power err/tol" : "awgn component power err/tol", std::fabs(relp) / tol_p,
+           fmt("%s: measured noise power %.9Lg, expected %.9Lg (%.4Lf dB off; relative error %.4Lg, allowed 6 sqrt(2/n) = %.4Lg)", at.c_str(), m.raw2, sigma * sigma,
+               10 * std::log10(m.raw2 / (sigma * sigma)), relp, tol_p));
     // whiteness
     const ld tol_a = 6 / std::sqrt(n);
-    for (int k = 1; k <= 5; ++k) {
-        o.metric("awgn acf err/tol", double(std::fabs(m.acf[k]) / tol_a));
-        if (!(std::fabs(m.acf[k]) <= tol_a)) { o.fail("awgn:acf", fmt("%s: autocorrelation at lag %d = %.6Lg, allowed 6/sqrt(n) = %.6Lg", at.c_str(), k, m.acf[k], tol_a)); break; }
-    }
+    for (int k = 1; k <= 5; ++k)
+        b.band(fmt("acf:%s:%d", tag.c_str(), k), "awgn:acf", "awgn acf err/tol", std::fabs(m.acf[k]) / tol_a,
+               fmt("%s: autocorrelation at lag %d = %.6Lg, allowed 6/sqrt(n) = %.6Lg", at.c_str(), k, m.acf[k], tol_a));
     // Gaussian shape
     const ld g2 = m.m2 > 0 ? m.m4 / (m.m2 * m.m2) - 3 : -3, tol_k = 6 * std::sqrt(24 / n);
-    o.metric("awgn kurtosis err/tol", double(std::fabs(g2) / tol_k));
-    if (!(std::fabs(g2) <= tol_k)) o.fail("awgn:kurtosis", fmt("%s: excess kurtosis %.6Lg, allowed 6 sqrt(24/n) = %.6Lg", at.c_str(), g2, tol_k));
+    b.band("kurtosis:" + tag, "awgn:kurtosis", "awgn kurtosis err/tol", std::fabs(g2) / tol_k, fmt("%s: excess kurtosis %.6Lg, allowed 6 sqrt(24/n) = %.6Lg", at.c_str(), g2, tol_k));
+}
+
+// one draw of real awgn after rng(libseed): all band statistics of noise = y - x
+Bands draw_real(const std::vector<double>& xv, double snr, int libseed, const std::string& what) {
+    Bands b;
+    const int n = int(xv.size());
+    dl::rng(libseed);
+    const dl::arr_real y = dl::awgn(to_arr(xv), snr);
+    if (y.size() != n) { b.hard_sig = "awgn:size"; b.hard_msg = fmt("%s returned %d samples", what.c_str(), y.size()); return b; }
+    if (!all_finite(y)) { b.hard_sig = "awgn:nonfinite"; b.hard_msg = what + " returned a non-finite sample"; return b; }
+    ld sx2 = 0;
+    for (double v : xv) sx2 += ld(v) * v;
+    const ld sigma = std::sqrt(sx2 / ld(n) * powl(10.0L, -ld(snr) / 10));
+    std::vector<double> z(static_cast<size_t>(n));
+    ld dot = 0;
+    for (int i = 0; i < n; ++i) { z[size_t(i)] = y[i] - xv[size_t(i)]; dot += ld(z[size_t(i)]) * xv[size_t(i)]; }
+    check_component(z, sigma, what, "", b);
+    // independent of the signal: sum z_i x_i / (sigma ||x||) is N(0,1) for fixed x
+    const ld rho = dot / (sigma * std::sqrt(sx2));
+    b.band("signal-corr", "awgn:signal-corr", "awgn signal-corr err/tol", std::fabs(rho) / 6, fmt("%s: <noise, x>/(sigma ||x||) = %.4Lg, a standard normal variable, allowed 6", what.c_str(), rho));
+    return b;
+}
+
+Bands draw_cmplx(const std::vector<std::complex<double>>& xv, double snr, int libseed, const std::string& what) {
+    Bands b;
+    const int n = int(xv.size());
+    dl::rng(libseed);
+    const dl::arr_cmplx y = dl::awgn(to_arr(xv), snr);
+    if (y.size() != n) { b.hard_sig = "awgn:size"; b.hard_msg = fmt("%s returned %d samples", what.c_str(), y.size()); return b; }
+    if (!all_finite(y)) { b.hard_sig = "awgn:nonfinite"; b.hard_msg = what + " returned a non-finite sample"; return b; }
+    ld sx2 = 0;
+    for (auto& v : xv) sx2 += ld(v.real()) * v.real() + ld(v.imag()) * v.imag();
+    const ld sigma = std::sqrt(sx2 / ld(n) * powl(10.0L, -ld(snr) / 10));   // total (both components)
+    const ld sigc = sigma / std::sqrt(ld(2));                                // per component
+    std::vector<double> zr(static_cast<size_t>(n)), zi(static_cast<size_t>(n));
+    ld tot = 0, dre = 0, dim = 0;
+    for (int i = 0; i < n; ++i) {
+        const double a = y[i].re - xv[size_t(i)].real(), c = y[i].im - xv[size_t(i)].imag();
+        zr[size_t(i)] = a;
+        zi[size_t(i)] = c;
+        tot += ld(a) * a + ld(c) * c;
+        dre += ld(a) * xv[size_t(i)].real() + ld(c) * xv[size_t(i)].imag();   // Re z conj(x)
+        dim += ld(c) * xv[size_t(i)].real() - ld(a) * xv[size_t(i)].imag();   // Im z conj(x)
+    }
+    tot /= ld(n);
+    // total power: 2n real Gaussian samples  =>  relative standard error sqrt(2/(2n))
+    const ld relp = tot / (sigma * sigma) - 1, tol_p = 6 * std::sqrt(1 / ld(n));
+    b.band("power-total", "awgn:cmplx:power-total", "awgn complex total power err/tol", std::fabs(relp) / tol_p,
+           fmt("%s: measured noise power (re+im) %.9Lg, expected %.9Lg (%.4Lf dB off; relative error %.4Lg, allowed 6 sqrt(1/n) = %.4Lg)", what.c_str(), tot, sigma * sigma,
+               10 * std::log10(tot / (sigma * sigma)), relp, tol_p));
+    check_component(zr, sigc, what, "re", b);
+    check_component(zi, sigc, what, "im", b);
+    // real and imaginary noise are uncorrelated at lags -5..5
+    ld mr = 0, mi = 0;
+    for (int i = 0; i < n; ++i) { mr += zr[size_t(i)]; mi += zi[size_t(i)]; }
+    mr /= ld(n);
+    mi /= ld(n);
+    const ld tol_a = 6 / std::sqrt(ld(n));
+    for (int lag = -5; lag <= 5; ++lag) {
+        const ld cc = xcorr_at(zr, zi, lag, mr, mi);
+        b.band(fmt("reim-corr:%d", lag), "awgn:reim-corr", "awgn re-im corr err/tol", std::fabs(cc) / tol_a,
+               fmt("%s: correlation of real and imaginary noise at lag %d = %.6Lg, allowed 6/sqrt(n) = %.6Lg", what.c_str(), lag, cc, tol_a));
+    }
+    const ld rho1 = dre / (sigc * std::sqrt(sx2)), rho2 = dim / (sigc * std::sqrt(sx2));
+    b.band("signal-corr:re", "awgn:signal-corr", "awgn signal-corr err/tol", std::fabs(rho1) / 6, fmt("%s: Re <noise, x>/(sigma_c ||x||) = %.4Lg, a standard normal variable, allowed 6", what.c_str(), rho1));
+    b.band("signal-corr:im", "awgn:signal-corr", "awgn signal-corr err/tol", std::fabs(rho2) / 6, fmt("%s: Im <noise, x>/(sigma_c ||x||) = %.4Lg, a standard normal variable, allowed 6", what.c_str(), rho2));
+    return b;
 }
 
 }   // namespace
@@ -166,77 +250,35 @@ static void awgn_check(const Json& c, Out& o) {
     const int n = c.geti("n"), cls = c.geti("cls");
     const bool cx = c.geti("cx") != 0;
     const double snr = c.getd("snr"), A = std::pow(10.0, c.getd("loga"));
-    Rng r(c.getu("seed"));
-    dl::rng(int(c.getu("seed") % 1000003u));
+    const uint64_t seed = c.getu("seed");
+    Rng r(seed);
     const std::string what = fmt("awgn(%s %s[%d], A=%.3g, snr=%.4f dB)", cx ? "complex" : "real", cx ? csig_name(cls) : rsig_name(cls), n, A, snr);
-    const ld gain = powl(10.0L, -ld(snr) / 10);
-    if (!cx) {
-        const std::vector<double> xv = make_real(r, n, cls, A);
-        const dl::arr_real x = to_arr(xv);
-        const dl::arr_real y = dl::awgn(x, snr);
-        if (y.size() != n) { o.fail("awgn:size", fmt("%s returned %d samples", what.c_str(), y.size())); return; }
-        if (!all_finite(y)) { o.fail("awgn:nonfinite", what + " returned a non-finite sample"); return; }
-        ld px = 0, sx2 = 0;
-        for (double v : xv) px += ld(v) * v;
-        sx2 = px;
-        px /= ld(n);
-        const ld sigma = std::sqrt(px * gain);
-        std::vector<double> z(static_cast<size_t>(n));
-        ld dot = 0;
-        for (int i = 0; i < n; ++i) { z[size_t(i)] = y[i] - xv[size_t(i)]; dot += ld(z[size_t(i)]) * xv[size_t(i)]; }
-        check_component(z, sigma, what, "", o);
-        // independent of the signal: sum z_i x_i / (sigma ||x||) is N(0,1) for fixed x
-        const ld rho = dot / (sigma * std::sqrt(sx2));
-        o.metric("awgn signal-corr err/tol", double(std::fabs(rho) / 6));
-        if (!(std::fabs(rho) <= 6)) o.fail("awgn:signal-corr", fmt("%s: <noise, x>/(sigma ||x||) = %.4Lg, a standard normal variable, allowed 6", what.c_str(), rho));
-        o.evals = 9;
-    } else {
-        const auto xv = make_cmplx(r, n, cls, A);
-        const dl::arr_cmplx x = to_arr(xv);
-        const dl::arr_cmplx y = dl::awgn(x, snr);
-        if (y.size() != n) { o.fail("awgn:size", fmt("%s returned %d samples", what.c_str(), y.size())); return; }
-        if (!all_finite(y)) { o.fail("awgn:nonfinite", what + " returned a non-finite sample"); return; }
-        ld px = 0;
-        for (auto& v : xv) px += ld(v.real()) * v.real() + ld(v.imag()) * v.imag();
-        const ld sx2 = px;
-        px /= ld(n);
-        const ld sigma = std::sqrt(px * gain);          // total (both components)
-        const ld sigc = sigma / std::sqrt(ld(2));       // per component
-        std::vector<double> zr(static_cast<size_t>(n)), zi(static_cast<size_t>(n));
-        ld tot = 0, dre = 0, dim = 0;
-        for (int i = 0; i < n; ++i) {
-            const double a = y[i].re - xv[size_t(i)].real(), b = y[i].im - xv[size_t(i)].imag();
-            zr[size_t(i)] = a;
-            zi[size_t(i)] = b;
-            tot += ld(a) * a + ld(b) * b;
-            dre += ld(a) * xv[size_t(i)].real() + ld(b) * xv[size_t(i)].imag();   // Re z conj(x)
-            dim += ld(b) * xv[size_t(i)].real() - ld(a) * xv[size_t(i)].imag();   // Im z conj(x)
-        }
-        tot /= ld(n);
-        // total power: 2n real Gaussian samples  =>  relative standard error sqrt(2/(2n))
-        const ld relp = tot / (sigma * sigma) - 1, tol_p = 6 * std::sqrt(1 / ld(n));
-        o.metric("awgn complex total power err/tol", double(std::fabs(relp) / tol_p));
-        if (!(std::fabs(relp) <= tol_p))
-            o.fail("awgn:cmplx:power-total", fmt("%s: measured noise power (re+im) %.9Lg, expected %.9Lg (%.4Lf dB off; relative error %.4Lg, allowed 6 sqrt(1/n) = %.4Lg)", what.c_str(), tot,
-                                                 sigma * sigma, 10 * std::log10(tot / (sigma * sigma)), relp, tol_p));
-        check_component(zr, sigc, what, "re", o);
-        check_component(zi, sigc, what, "im", o);
-        // real and imaginary noise are uncorrelated at lags -5..5
-        ld mr = 0, mi = 0;
-        for (int i = 0; i < n; ++i) { mr += zr[size_t(i)]; mi += zi[size_t(i)]; }
-        mr /= ld(n);
-        mi /= ld(n);
-        const ld tol_a = 6 / std::sqrt(ld(n));
-        for (int lag = -5; lag <= 5; ++lag) {
-            const ld cc = xcorr_at(zr, zi, lag, mr, mi);
-            o.metric("awgn re-im corr err/tol", double(std::fabs(cc) / tol_a));
-            if (!(std::fabs(cc) <= tol_a)) { o.fail("awgn:reim-corr", fmt("%s: correlation of real and imaginary noise at lag %d = %.6Lg, allowed 6/sqrt(n) = %.6Lg", what.c_str(), lag, cc, tol_a)); break; }
-        }
-        const ld rho1 = dre / (sigc * std::sqrt(sx2)), rho2 = dim / (sigc * std::sqrt(sx2));
-        o.metric("awgn signal-corr err/tol", double(std::max(std::fabs(rho1), std::fabs(rho2)) / 6));
-        if (!(std::fabs(rho1) <= 6) || !(std::fabs(rho2) <= 6))
-            o.fail("awgn:signal-corr", fmt("%s: <noise, x>/(sigma_c ||x||) = (%.4Lg, %.4Lg), standard normal variables, allowed 6", what.c_str(), rho1, rho2));
-        o.evals = 30;
+    std::vector<double> xr;
+    std::vector<std::complex<double>> xc;
+    if (cx) xc = make_cmplx(r, n, cls, A);
+    else xr = make_real(r, n, cls, A);
+    // library seeds of the first draw and of the two confirmation draws: all derived from the case
+    const int libseed[3] = {int(seed % 1000003u), int(mix(seed, 1) % 1000003u), int(mix(seed, 2) % 1000003u)};
+    auto draw = [&](int k) { return cx ? draw_cmplx(xc, snr, libseed[k], what) : draw_real(xr, snr, libseed[k], what); };
+    const Bands b0 = draw(0);
+    if (!b0.hard_sig.empty()) { o.fail(b0.hard_sig, b0.hard_msg); return; }
+    for (auto& m : b0.metrics) o.metric(m.first, m.second);
+    o.evals = long(b0.metrics.size());
+    if (!b0.hits.empty()) {
+        // A statistic left its 6-standard-error band.  A calibration / whiteness / shape defect repeats on every draw, a
+        // 6-sigma fluke does not: the SAME case (signal, snr, length) is drawn twice more with other library seeds and the
+        // failure is reported only for a statistic that is outside its band in all three draws.
+        const Bands b1 = draw(1), b2 = draw(2);
+        o.evals += long(b1.metrics.size() + b2.metrics.size());
+        if (!b1.hard_sig.empty()) { o.fail(b1.hard_sig, b1.hard_msg); return; }
+        if (!b2.hard_sig.empty()) { o.fail(b2.hard_sig, b2.hard_msg); return; }
+        bool confirmed = false;
+        for (auto& h : b0.hits)
+            if (b1.has(h.key) && b2.has(h.key)) {
+                confirmed = true;
+                o.fail(h.sig, h.msg + fmt(" [outside the band in all three draws, rng(%d), rng(%d), rng(%d)]", libseed[0], libseed[1], libseed[2]));
+            }
+        o.label(confirmed ? "awgn:band-exceeded-confirmed-3-of-3" : "awgn:band-exceeded-once-not-confirmed");
     }
     // non-trivial: complex input, or an SNR that the unit tests do not use (10, 50, 90, 100 dB)
     const bool test_snr = (snr == 10 || snr == 50 || snr == 90 || snr == 100);
@@ -246,7 +288,7 @@ static void awgn_check(const Json& c, Out& o) {
         o.nontrivial(key_of(int(cx), cls, int(std::floor((snr + 10) / 5)), int(std::floor((c.getd("loga") + 3) * 2)), lb));
     }
     // how often a sound 6-standard-error band is approached (diagnostic: expected about once per 1e5 band tests)
-    for (auto& m : o.metrics) if (m.second > 0.8) o.label("band-test above 0.8 of 6 SE: " + m.first.substr(5, m.first.size() - 13) + (cx ? " / complex " : " / real ") + (cx ? csig_name(cls) : rsig_name(cls)));
+    for (auto& m : b0.metrics) if (m.second > 0.8) o.label("band-test above 0.8 of 6 SE: " + m.first.substr(5, m.first.size() - 13) + (cx ? " / complex " : " / real ") + (cx ? csig_name(cls) : rsig_name(cls)));
     o.label(std::string("signal:") + (cx ? "complex:" : "real:") + (cx ? csig_name(cls) : rsig_name(cls)));
     o.label(n >= 500000 ? "len:>=5e5" : n >= 100000 ? "len:1e5..5e5" : n >= 30000 ? "len:3e4..1e5" : "len:1e4..3e4");
     o.label(snr < 0 ? "snr:<0" : snr < 30 ? "snr:0..30" : snr < 60 ? "snr:30..60" : "snr:60..80");
@@ -270,7 +312,7 @@ static void awgn_gen(Ctx& ctx) {
                    .set("snr", r.uni(-10, 80)).set("loga", r.uni(-3, 3)).set("seed", (long long)(r.next() >> 16)));
     }
     // log-uniform lengths 1e4..4e5 (shrinks towards 1e4)
-    ctx.rc("random", ctx.by_tier(20000, 100000), [&]() {
+    ctx.rc("random", ctx.by_tier(30000, 240000), [&]() {
         int n = int(std::floor(std::pow(10.0, 4.0 + 1.6 * pickd(0, 1)) + 0.5));
         return Json::object().set("n", n).set("cx", pick(0, 1)).set("cls", pick(0, kNSigClasses - 1)).set("snr", pickd(-10, 80)).set("loga", pickd(-3, 3)).set("seed", (long long)seed64());
     });
